@@ -1,9 +1,10 @@
 #!/bin/bash
-# tools/ingest.sh C20-3 C20-4 ...   verify freshly delivered seeds from /tmp/seeds and add them to the matrix
+# tools/ingest.sh C20-5 C20-6 ...   confirm freshly delivered seeds from /tmp/seeds in a scratch worktree (tools/verify_seed.py),
+# store the confirmed ones under seeded/, and run every check against them on scratch copies (tools/corpus.py)
 cd "$(dirname "$0")/.."
 for s in "$@"; do
   if [ -d /tmp/seeds/$s ]; then tools/verify_seed.py /tmp/seeds/$s 2>&1 | tail -1; fi
 done
 ok=""
 for s in "$@"; do [ -d seeded/$s ] && ok="$ok $s"; done
-[ -n "$ok" ] && tools/seed_matrix.py $ok
+[ -n "$ok" ] && python3 tools/corpus.py --seeds $ok
